@@ -29,6 +29,29 @@ the first entry of a hash map, i.e. any candidate). `C17_packaging_invariant_map
 each holding a different `linked-files-map.json` – the argument order decides; finding
 C17-two-path-mappings-first-wins).
 
+Zip archives by their RAW entry names (`Producer/Zip.lean`, after fix 2f541c3): `zipListed` is what
+`explore` lists of a raw archive (directory entries skipped, names with NUL / `..` / a root
+rejected, the rest under their canonical spelling, a canonical spelling only once) together with
+the content `read`/`extract` deliver under each listed name. `C17_zip_listing_unique`: the listing
+never holds a path twice, so `WF` needs to be assumed for directories and plain arguments only
+(`C17_items_exact_raw`). `C17_zip_entries_exact_partial`: when no two entries of the archive share
+a canonical spelling, EVERY listable entry is an artifact under its canonical name with its own
+bytes – `a//b.info`, `a/./b.info`, `./a.info` are used exactly like `a/b.info`, `a.info`
+(review item 8; silently unused before the fix). With two entries of one canonical spelling the
+commit promises "the first one spelled that way"; that is FALSE of the code
+(`C17_zip_listed_is_first_false`: `zip_index` prefers an entry whose raw name is the canonical
+spelling, and otherwise takes the first entry of that spelling DIRECTORY ENTRIES INCLUDED – finding
+C17-zip-same-canonical-name-reads-other-entry).
+Domain restriction of the whole property (review item 34): the archives of a layout are DISJOINT
+sets of files. `Arg` cannot say that two archives hold the same physical file; an argument given
+twice, or a directory and one of its sub-directories, are layouts in which every shared file is an
+artifact twice, and is counted twice (`C17_repeated_argument_false`; finding
+C17-overlapping-arguments-counted-twice). A directory is the list of files `WalkDir` yields
+without following links to directories (finding C17-linked-subdirectory-not-walked: a zip made
+of the same tree holds the files behind the link).
+`itemsOf` / `candsOf` (the two components of a successful outcome) are not separate driver ops:
+`C17_outcome` = `run_cases` reduces them to `run`, which the harness ties.
+
 Argument classification (`classifyArg`, `RawArg`, `runRaw`): `Arg` is an argument after
 classification; `C17_arg_classification` says which argument string with which file-system facts
 is taken for a zip, a directory, a plain file, or makes `producer()` panic (and with which
@@ -36,6 +59,7 @@ message); `C17_raw_run` connects `runRaw` to `run`, so every theorem above appli
 arguments that classify without panic.
 -/
 import GrcovModel.Lemmas.Producer
+import GrcovModel.Lemmas.ProducerZip
 namespace Grcov.Props.C17
 open Grcov Grcov.Producer AList
 
@@ -303,6 +327,139 @@ theorem C17_two_mappings_undetermined :
   · decide
   · simp [mappingMay]
   · simp [mappingMay]
+
+/-! ### zip archives by their raw entry names (fix 2f541c3) -/
+
+/-- Whatever the raw entries of a zip archive are – respelled, repeated, directory entries, hostile
+names – the listing `explore` makes of it never holds a path twice. -/
+theorem C17_zip_listing_unique (es : List RawEntry) :
+    ∀ f ∈ zipListed es, ∀ g ∈ zipListed es, f.path = g.path → f = g :=
+  zipListed_functional es
+
+/-- Exactness for layouts whose zips are given by their raw entries: paths need to be unique
+inside each DIRECTORY and among the plain arguments only; the rest is `C17_items_exact`. -/
+theorem C17_items_exact_raw (o : Opts) (rargs : List RArg) (hw : WFR rargs)
+    (hb : (rargs.map RArg.toArg).any Arg.bad = false)
+    (hu : (arts o.isLlvm (rargs.map RArg.toArg)).any Art.usable = true) :
+    ∃ items maps, runR o rargs = .ok items maps ∧
+      (items.map Item.obs).Perm (closed o (arts o.isLlvm (rargs.map RArg.toArg))) :=
+  C17_items_exact o _ (WF_of_WFR hw) hb hu
+
+/-- The canonical spelling of an accepted entry name is a `/`-joined list of real names (no empty,
+`.` or `..` component, no NUL byte) and is its own canonical spelling. -/
+theorem C17_canonical_name (n c : Name) (h : canonName n = some c) :
+    (∃ names : List Name, c = UPath.join names ∧ (∀ s ∈ names, UPath.RealName s) ∧ 0 ∉ c) ∧
+    canonName c = some c :=
+  ⟨canonName_spec h, canonName_idem h⟩
+
+/-- `a//b.info`, `a/./e.info`, `./a.info` are `a/b.info`, `a/e.info`, `a.info`; `..`, a root, a NUL
+are rejected; a trailing `/` or `\` makes a directory entry. -/
+theorem C17_canonical_name_witnesses :
+    canonName [97, 47, 47, 98, 46, 105, 110, 102, 111] = some [97, 47, 98, 46, 105, 110, 102, 111] ∧
+    canonName [97, 47, 46, 47, 101, 46, 105, 110, 102, 111] = some [97, 47, 101, 46, 105, 110, 102, 111] ∧
+    canonName [46, 47, 97, 46, 105, 110, 102, 111] = some [97, 46, 105, 110, 102, 111] ∧
+    canonName [46, 46, 47, 117, 112, 46, 105, 110, 102, 111] = none ∧
+    canonName [97, 47, 46, 46, 47, 98] = none ∧
+    canonName [47, 97, 98, 115, 46, 105, 110, 102, 111] = none ∧
+    canonName [97, 0, 46, 105, 110, 102, 111] = none ∧
+    rawIsDir [100, 47] = true ∧ rawIsDir [100, 92] = true ∧ rawIsDir [100] = false := by
+  decide
+
+/-- Every entry is an artifact under its canonical name. If no two entries of the archive's index
+(directory entries included) share a canonical spelling, the listing is exactly: every entry that
+is not a directory entry and whose name is safe, in index order, under its canonical spelling,
+with its own first bytes and its own content. In particular a respelled entry (`a//b.info`) is used
+exactly like the canonically spelled one. -/
+theorem C17_zip_entries_exact_partial (es : List RawEntry) (hd : CanonDistinct (crateIndex es)) :
+    zipListed es = ((crateIndex es).filter listable).map RawEntry.toFile :=
+  listIx_of_distinct _ hd
+
+/-- … and for an archive without repeated raw names the index is the entry list itself. -/
+theorem C17_respelled_entries_used (es : List RawEntry) (hn : (es.map (·.name)).Nodup)
+    (hd : CanonDistinct es) : zipListed es = (es.filter listable).map RawEntry.toFile := by
+  have := C17_zip_entries_exact_partial es (by rw [crateIndex_of_nodup es hn]; exact hd)
+  rwa [crateIndex_of_nodup es hn] at this
+
+/-- The zip crate's index: names pairwise distinct; a repeated raw name keeps the place of its first
+occurrence and has the data of the last (closed instance). -/
+theorem C17_crate_index (es : List RawEntry) :
+    ((crateIndex es).map (·.name)).Nodup ∧
+    crateIndex [⟨[100], [1], 1⟩, ⟨[101], [2], 2⟩, ⟨[100], [3], 3⟩] = [⟨[100], [3], 3⟩, ⟨[101], [2], 2⟩] :=
+  ⟨crateIndex_names_nodup es, by decide⟩
+
+/-- Full statement (what the fix's commit message and the comment of `zip_index` promise): of
+several entries with one canonical spelling the FIRST listable one is the artifact – listed,
+sniffed AND read. -/
+def C17_zip_listed_is_first_stmt : Prop := ∀ es : List RawEntry, zipListed es = zipFirst es
+
+/-- FALSE of the code. `a//b.info` (content 1) followed by `a/b.info` (content 2): the first is
+listed and sniffed, the second is read (`index_for_name` finds the raw name `a/b.info`). -/
+theorem C17_zip_listed_is_first_false : ¬ C17_zip_listed_is_first_stmt := by
+  intro h
+  have := h [⟨[97, 47, 47, 98, 46, 105, 110, 102, 111], [84, 78, 58], 1⟩,
+             ⟨[97, 47, 98, 46, 105, 110, 102, 111], [84, 78, 58], 2⟩]
+  revert this
+  decide
+
+/-- A second witness: a DIRECTORY entry `x.info/` (content 7, empty in practice) in front of
+`./x.info` (content 3): the file entry is listed, the directory entry's data are read – the
+coverage of `x.info` is lost although it is the only entry of that name. -/
+theorem C17_zip_dir_entry_read_instead :
+    zipListed [⟨[120, 46, 105, 110, 102, 111, 47], [], 7⟩,
+               ⟨[46, 47, 120, 46, 105, 110, 102, 111], [84, 78, 58], 3⟩]
+      = [⟨[120, 46, 105, 110, 102, 111], [84, 78, 58], 7⟩] ∧
+    zipFirst [⟨[120, 46, 105, 110, 102, 111, 47], [], 7⟩,
+              ⟨[46, 47, 120, 46, 105, 110, 102, 111], [84, 78, 58], 3⟩]
+      = [⟨[120, 46, 105, 110, 102, 111], [84, 78, 58], 3⟩] := by
+  decide
+
+/-- Under exactly the guard both witnesses violate – no two entries of the index share a canonical
+spelling – the listed entry is the one that is read. -/
+theorem C17_zip_listed_is_first_partial (es : List RawEntry) (hd : CanonDistinct (crateIndex es)) :
+    zipListed es = zipFirst es :=
+  listGo_eq_firstGo hd [] _ (fun _ he => he)
+
+/-- the review's probe (item 8): a zip holding `a//b.info` and `c.info` delivers two items, the
+respelled one with its own content; `./d.info` too; `../e.info` and the directory entry do not -/
+example : runR ⟨false, false⟩ [.zip 0 [⟨[97, 47, 47, 98, 46, 105, 110, 102, 111], [84, 78, 58], 1⟩,
+      ⟨[99, 46, 105, 110, 102, 111], [83, 70, 58], 2⟩, ⟨[46, 47, 100, 46, 105, 110, 102, 111], [84, 78, 58], 3⟩,
+      ⟨[46, 46, 47, 101, 46, 105, 110, 102, 111], [84, 78, 58], 4⟩, ⟨[102, 46, 105, 110, 102, 111, 47], [84, 78, 58], 5⟩]]
+    = .ok [.content .info 1 (.arch (.arg 0)), .content .info 2 (.arch (.arg 0)),
+           .content .info 3 (.arch (.arg 0))] [] := by decide
+
+example : CanonDistinct [⟨[97, 47, 47, 98, 46, 105, 110, 102, 111], [84, 78, 58], 1⟩,
+    ⟨[99, 46, 105, 110, 102, 111], [83, 70, 58], 2⟩] := by unfold CanonDistinct; decide
+
+/-! ### overlapping arguments (domain restriction, review item 34) -/
+
+/-- Full statement one might expect: naming an argument twice changes nothing. -/
+def C17_repeated_argument_stmt : Prop :=
+  ∀ (o : Opts) (a : Arg) (rest : List Arg), OutcomeEquiv (run o (a :: a :: rest)) (run o (a :: rest))
+
+/-- FALSE of the code: every argument is explored as an archive of its own, so `grcov data data`
+sends every `.info` of `data` twice (and `grcov data data/sub` those below `sub`). The theorems of
+this file are about layouts whose archives are disjoint sets of files: `arts` lists a file once per
+archive that holds it. -/
+theorem C17_repeated_argument_false : ¬ C17_repeated_argument_stmt := by
+  intro h
+  have := h ⟨false, false⟩ (.dir 0 [⟨[114, 46, 105, 110, 102, 111], [84, 78, 58], 31⟩]) []
+  revert this
+  have h1 : run ⟨false, false⟩ [.dir 0 [⟨[114, 46, 105, 110, 102, 111], [84, 78, 58], 31⟩],
+        .dir 0 [⟨[114, 46, 105, 110, 102, 111], [84, 78, 58], 31⟩]]
+      = .ok [.content .info 31 (.arch (.arg 0)), .content .info 31 (.arch (.arg 0))] [] := by decide
+  have h2 : run ⟨false, false⟩ [.dir 0 [⟨[114, 46, 105, 110, 102, 111], [84, 78, 58], 31⟩]]
+      = .ok [.content .info 31 (.arch (.arg 0))] [] := by decide
+  rw [h1, h2]
+  simp [OutcomeEquiv, Item.obs]
+
+/-- What does hold: the items of a layout are those of its artifact list, in which a file given
+through two arguments occurs twice (`arts` of a concatenation is the concatenation, plain files
+aside) – so exactness relative to `arts` holds for overlapping arguments too, and says "twice". -/
+theorem C17_repeated_argument_counts_twice (o : Opts) (a : Arg) (hw : WF [a, a])
+    (hb : [a, a].any Arg.bad = false) (hu : (arts o.isLlvm [a, a]).any Art.usable = true) :
+    ∃ items maps, run o [a, a] = .ok items maps ∧
+      (items.map Item.obs).Perm (closed o (arts o.isLlvm [a, a])) :=
+  C17_items_exact o [a, a] hw hb hu
 
 /-! ### classification of the command-line arguments -/
 
